@@ -100,11 +100,18 @@ theorem hok_varEvaluation (n : String) (g : Bool) : HOk (varEvaluation n g) := b
 theorem hok_assign_eval (h v : String) : HOk (do varAssignment h v false; varEvaluation h false : BM String) :=
   hok_bind _ _ (hok_varAssignment _ _ _) (fun _ => hok_varEvaluation _ _)
 
+theorem hok_arith_eval (h l o r : String) : HOk (do varAssignArith h l o r false; varEvaluation h false : BM String) := by
+  refine hok_bind _ _ ?_ (fun _ => hok_varEvaluation _ _)
+  unfold varAssignArith; exact hok_bind _ _ hok_get (fun _ => hok_addLine _ rfl)
+theorem hok_test_eval (h : String) (t : Test) (a b : String) : HOk (do varAssignTest h t a b false; varEvaluation h false : BM String) := by
+  refine hok_bind _ _ ?_ (fun _ => hok_varEvaluation _ _)
+  unfold varAssignTest; exact hok_bind _ _ hok_get (fun _ => hok_addLine _ rfl)
+
 theorem hok_unaryOp (e o : String) : HOk (unaryOp e o) := by
   unfold unaryOp
   refine hok_bind _ _ hok_nextHelperVar (fun h => ?_)
   split
-  · exact hok_assign_eval _ _
+  · exact hok_test_eval _ _ _ _
   · exact hok_fail _
 
 theorem hok_binaryOp (l o r : String) (t : ValueType) : HOk (binaryOp l o r t) := by
@@ -114,7 +121,7 @@ theorem hok_binaryOp (l o r : String) (t : ValueType) : HOk (binaryOp l o r t) :
   · exact hok_fail _
   · split
     · split
-      · exact hok_assign_eval _ _
+      · exact hok_arith_eval _ _ _ _
       · exact hok_fail _
     · split
       · exact hok_assign_eval _ _
@@ -125,12 +132,12 @@ theorem hok_comparisonOp (l o r : String) (t : ValueType) : HOk (comparisonOp l 
   unfold comparisonOp comparisonOpWith
   split
   · exact hok_fail _
-  · exact hok_bind _ _ hok_nextHelperVar (fun h => hok_assign_eval _ _)
+  · exact hok_bind _ _ hok_nextHelperVar (fun h => hok_test_eval _ _ _ _)
 
 theorem hok_logicalOp (l o r : String) : HOk (logicalOp l o r) := by
   unfold logicalOp
   split
-  · exact hok_bind _ _ hok_nextHelperVar (fun h => hok_assign_eval _ _)
+  · exact hok_bind _ _ hok_nextHelperVar (fun h => hok_test_eval _ _ _ _)
   · exact hok_fail _
 
 /-- the helper-calling line together with its flag -/
@@ -231,7 +238,7 @@ theorem hok_copyOp (d sr : String) (g : Bool) : HOk (copyOp d sr g) := by
   rcases hl with rfl | rfl <;> simp [Line.needsSah, Line.needsSch, Line.needsSsh]
 
 theorem hok_existsOp (p : String) : HOk (existsOp p) := by
-  unfold existsOp; exact hok_bind _ _ hok_nextHelperVar (fun _ => hok_assign_eval _ _)
+  unfold existsOp; exact hok_bind _ _ hok_nextHelperVar (fun _ => hok_test_eval _ _ _ _)
 
 theorem hok_readFile (p : String) : HOk (readFile p) := by
   unfold readFile; exact hok_bind _ _ hok_nextHelperVar (fun _ => hok_assign_eval _ _)
